@@ -30,6 +30,12 @@ META = {
         "the harness's slicer implements it independently). Nothing is dropped silently (C07_coordinate_line_cases, "
         "C07_read_total). C07_later_models_ignored_all_lines (G2) and C07_drop_water_iff_all_lines (no guard) hold for "
         "all line lists that do not fail loudly. "
+        "(1b) --drop-water is part of the ingest model as a filter by RESIDUE NAME only (HOH/WAT; TIP, SOL, DOD are "
+        "not waters): C07_drop_water_complete - for ALL line lists, with the flag the read is loud or the atoms are "
+        "exactly the non-water coordinate lines of the first model, whatever the serial numbers (shared, constant, "
+        "wrapped, restarting), chains or positions; C07_drop_water_by_residue_name at record level. Tied through the "
+        "model correspondence, an independent slicer with the flag (atoms told apart by serial AND coordinates), "
+        "main.drop_water on the parsed list (object identity) and main.main_driver runs on built peptides with solvent. "
         "(2) C07_other_records_exact / C07_other_records_irrelevant: with the behaviour of the ~50 other record parsers "
         "explicit as an arbitrary oracle (raise -> name on errlist -> later records OF THAT NAME suppressed), for EVERY "
         "oracle the result equals that of the model that ignores them, and inserting any line that is neither a "
@@ -90,6 +96,9 @@ THEOREMS = [
     "C07_line_endings_side_condition",
     "C07_bom_irrelevant",
     "C07_bom_regression",
+    "C07_drop_water_complete",
+    "C07_drop_water_by_residue_name",
+    "C07_drop_water_shared_serials",
 ]
 ALLOWED_AXIOMS = []
 
@@ -311,6 +320,14 @@ RES_POOL = [
     ("GLY", ["N", "H1", "H2", "H3", "CA", "HA2", "HA3", "XX1", "D1"], "ATOM"),
     ("HOH", ["O", "H1", "H2", "H3", "M", "EP1"], "HETATM"),
     ("WAT", ["OW", "HW", "H99", "LP1"], "ATOM"),
+]
+RES_POOL += [
+    # solvent under other names: NOT waters for --drop-water
+    ("TIP", ["OH2", "H1", "H2"], "HETATM"),
+    ("SOL", ["OW", "HW1", "HW2"], "ATOM"),
+    ("DOD", ["O", "D1", "D2"], "HETATM"),
+    ("HOH", ["O"], "HETATM"),
+    ("WAT", ["O", "H1", "H2"], "HETATM"),
 ]
 # names no reference map contains: appended to residues of every kind at a modest rate
 EXTRA_NAMES = ["H99", "HXT", "HO5'", "H5T", "HO3'", "H3T", "HO2'", "HZ9", "1HX", "HQ", "XX1", "D1", "Q", "M1", "OXX", "C99", "LP1"]
@@ -588,6 +605,47 @@ def gen_structured(rng, k):
                 feats.add("trailing-blanks")
         out.append(l)
     lines = out[:40]
+    dropw = rng.random() < 0.3
+    scheme = rng.choice([None, None, None, "restart-at-solvent", "constant", "wrap", "solvent-reuses"])
+    if scheme:
+        # serial numbers are not a key: solvent numbered from 1 again, constant serials,
+        # serials wrapped past 99999, solvent reusing serials of other records
+        feats.add("serial-scheme:" + scheme)
+        dropw = rng.random() < 0.7
+        idx = [i for i, l in enumerate(lines) if l[:6].strip() in ("ATOM", "HETATM") and len(l) >= 27 and l[6:11].strip().isdigit()]
+        solv = {i for i in idx if lines[i][17:20].strip() in ("HOH", "WAT", "TIP", "SOL", "DOD")}
+        others = [int(lines[i][6:11]) for i in idx if i not in solv]
+        n1 = n2 = 0
+        const = rng.choice([0, 1, 99999])
+        w0 = rng.choice([99997, 99998, 99999])
+        for k, i in enumerate(idx):
+            l = lines[i]
+            if scheme == "constant":
+                new = const
+            elif scheme == "wrap":
+                new = (w0 + k) % 100000
+            elif scheme == "restart-at-solvent":
+                if i in solv:
+                    n2 += 1
+                    new = n2
+                else:
+                    n1 += 1
+                    new = n1
+            else:
+                new = rng.choice(others) if (i in solv and others) else int(l[6:11])
+            lines[i] = l[:6] + f"{new:>5}" + l[11:]
+    if rng.random() < 0.2:
+        # ANISOU / SIGATM records after waters and non-waters (same serial and residue fields)
+        feats.add("ANISOU/SIGATM")
+        out2 = []
+        for l in lines:
+            out2.append(l)
+            if l[:6].strip() in ("ATOM", "HETATM") and len(l) >= 27 and rng.random() < 0.4:
+                if rng.random() < 0.6:
+                    out2.append("ANISOU" + l[6:27] + "    4836   4722   4703    -23    -40     13")
+                else:
+                    out2.append("SIGATM" + l[6:27] + "      0.001   0.001   0.001  0.00  0.00")
+        lines = out2[:48]
     eol = "\n"
     if rng.random() < 0.25:
         eol = "\r\n"
@@ -596,7 +654,7 @@ def gen_structured(rng, k):
     if rng.random() < 0.1 and text.endswith("\n"):
         text = text[: -len(eol)] if text.endswith(eol) else text[:-1]
         feats.add("no-final-eol")
-    return {"text": text, "feats": sorted(feats), "stream": "structured", "dropw": rng.random() < 0.3}
+    return {"text": text, "feats": sorted(feats), "stream": "structured", "dropw": dropw}
 
 
 MAL_TOKENS = ["", "x", "1e3", "nan", "inf", "-inf", "1_0.0", ".5", "5.", "+1.5", "1.5e", "1__0", "_1", "1_", "--1", "0x10", "1,5".replace(",", "."), "1.2.3", "+", "-", ".", "e5", "1e+5", "1E-2", "Infinity", "NaN", "1 2"]
@@ -840,8 +898,12 @@ def classify_line(l):
     return rec, "ok", d
 
 
-def slicer(text):
-    """The independent read with G1' semantics.  First model = lines in front of
+WATER_NAMES = ("HOH", "WAT")  # what --drop-water removes; TIP, SOL, DOD ... are not waters
+
+
+def slicer(text, dropw=False):
+    """The independent read with G1' semantics (dropw: the coordinate records whose
+    residue name is HOH or WAT are not there - by residue name only).  First model = lines in front of
     the second MODEL line (record names are those of the STRIPPED lines);
     ATOM/HETATM read by fixed columns (classify_line), one per (chain, resSeq,
     iCode, name), first listed.  A blank chain identifier of a non-water record in
@@ -872,6 +934,10 @@ def slicer(text):
             (drops if nmodel < 2 else drops_later).append(n)
             continue
         d["line"] = n
+        # atoms are told apart by serial AND coordinates: serial numbers need not be unique
+        d["uid"] = (d["serial"], fnum(d["x"]), fnum(d["y"]), fnum(d["z"]))
+        if dropw and d["resn"] in WATER_NAMES:
+            continue
         lettered = nter > 0 and d["chain"] == "" and d["resn"] not in ("HOH", "WAT")
         d["segchain"] = ("", seg) if lettered else d["chain"]
         d["codechain"] = (LETTERS[seg] if seg < len(LETTERS) else None) if lettered else d["chain"]
@@ -923,13 +989,13 @@ def diagnose(text, kept, first, later, got_serials, bad_models=()):
     real Biomolecule into a signature.  Every discrepant record is classified on
     its own; a discrepancy that none of the known mechanisms explains decides the
     signature (so a new defect is never reported under a known one)."""
-    exp = {d["serial"] for d in kept}
+    exp = {d["uid"] for d in kept}
     extra = got_serials - exp
     missing = exp - got_serials
     ev = structure_events(text)
     end_lines = [n for rec, n, _ in ev if rec == "END"]
-    later_serials = {d["serial"] for d in later}
-    byser = {d["serial"]: d for d in first}
+    later_serials = {d["uid"] for d in later}
+    byser = {d["uid"]: d for d in first}
     keptby = {d["key"]: d for d in kept}
     conds = []
     for s in sorted(extra):
@@ -970,16 +1036,18 @@ def alias_ok(resn_tab, resn, raw, got):
     return bool(ent) and ent[1].get(raw) == got
 
 
-def oracle_case(ctx, case, tab, result=None, extra=None):
+def oracle_case(ctx, case, tab, result=None, extra=None, dropw=False):
     """Independent check of one text on the real code. Returns True when the
     case was inside the oracle's domain."""
     text = case["text"]
-    sl = slicer(text)
+    sl = slicer(text, dropw)
     kept, first, later = sl["kept"], sl["first"], sl["later"]
-    serials = [d["serial"] for d in first + later]
-    if len(set(serials)) != len(serials):
-        ctx.count("oracle:outside-domain(duplicate serials)")
+    uids = [d["uid"] for d in first + later]
+    if len(set(uids)) != len(uids):
+        ctx.count("oracle:outside-domain(two records with the same serial and coordinates)")
         return False
+    if len({d["serial"] for d in first + later}) != len(uids):
+        ctx.count("oracle:in-domain-with-shared-serials")
     ev = structure_events(text)
     # alias collisions (two names of one residue that are aliases of one atom) are outside
     byres = {}
@@ -994,13 +1062,15 @@ def oracle_case(ctx, case, tab, result=None, extra=None):
     if nter + len({d["chain"] for d in first + later if d["chain"]}) >= 62 and any(d["chain"] == "" for d in first + later):
         ctx.count("oracle:outside-domain(>61 TER with blank chains)")
         return False
-    res = result if result is not None else impl_ingest(text, False)
-    extra = extra or {}
+    res = result if result is not None else impl_ingest(text, dropw)
+    extra = dict(extra or {})
+    if dropw:
+        extra["dropw"] = True
     if res[0] == "EXC" and res[1] == "RuntimeError" and "Unable to find file" in res[2] and not kept and not sl["raises"]:
         ctx.count("oracle:file-without-records-RuntimeError")
         return True
     nontrivial = len(kept) >= 2 and len(case["feats"]) >= 1
-    ctx.evaluated(("oracle", tuple(case["feats"]), len(kept), len(later) > 0, bool(sl["raises"]), bool(sl["drops"])), nontrivial or bool(sl["raises"]))
+    ctx.evaluated(("oracle", dropw, tuple(case["feats"]), len(kept), len(later) > 0, bool(sl["raises"]), bool(sl["drops"])), nontrivial or bool(sl["raises"]))
     if any(d.get("fallback") for d in first):
         ctx.count("oracle:record-read-through-whitespace-fallback")
     if sl["raises"]:
@@ -1025,13 +1095,13 @@ def oracle_case(ctx, case, tab, result=None, extra=None):
         ctx.fail(sig, f"readable file raises {res[1]}: {res[2]}", {"text": text, "mode": "oracle", **extra})
         return True
     got = [a for _, atoms in res[1] for a in atoms]
-    got_serials = [a[1] for a in got]
-    exp = {d["serial"]: d for d in kept}
+    got_serials = [(a[1], a[8], a[9], a[10]) for a in got]
+    exp = {d["uid"]: d for d in kept}
     ok = sorted(got_serials) == sorted(exp)
     fields_ok = True
     if ok:
         for a in got:
-            d = exp[a[1]]
+            d = exp[(a[1], a[8], a[9], a[10])]
             if (a[6], a[7], a[8], a[9], a[10]) != (d["seq"], d["ic"], fnum(d["x"]), fnum(d["y"]), fnum(d["z"])):
                 fields_ok = False
             if not alias_ok(tab, a[4], d["name"], a[2]):
@@ -1053,9 +1123,16 @@ def oracle_case(ctx, case, tab, result=None, extra=None):
             )
         return True
     sig = diagnose(text, kept, first, later, set(got_serials), sl["bad_models"]) if not ok else {"site": "Biomolecule.__init__", "condition": "field-mismatch"}
+    if dropw and not ok:
+        # does the same text agree without the flag?  then the flag's filter is at fault
+        plain = slicer(text, False)
+        r0 = impl_ingest(text, False)
+        if r0[0] == "OK" and sorted((a[1], a[8], a[9], a[10]) for _, at in r0[1] for a in at) == sorted(d["uid"] for d in plain["kept"]):
+            lost = [u for u in exp if u not in set(got_serials)]
+            sig = {"site": "main.drop_water", "condition": "non-water-record-dropped" if lost else "water-or-other-record-kept"}
     ctx.fail(
         sig,
-        f"atoms of Biomolecule != independent column read: expected serials {sorted(exp)[:30]}, got {sorted(got_serials)[:30]}",
+        f"atoms of Biomolecule{' (--drop-water)' if dropw else ''} != independent column read: expected serials {[u[0] for u in sorted(exp)][:30]}, got {[u[0] for u in sorted(got_serials)][:30]}",
         {"text": text, "mode": "oracle", **extra},
     )
     return True
@@ -1264,6 +1341,92 @@ def tie_numbers(ctx):
 # --------------------------------------------------------------------------
 
 
+def drop_water_level(ctx, case):
+    """main.drop_water on the parsed record list: the coordinate records it keeps must
+    be exactly - the same objects, in order - those whose residue name is not HOH/WAT."""
+    pdb, pio, pmain, biomolecule, aa, na = repo()
+    try:
+        pdblist, _ = pdb.read_pdb(_io.StringIO(case["text"]))
+    except Exception:  # noqa: BLE001 - a loud read is the oracle's business
+        return
+    coord = [o for o in pdblist if isinstance(o, (pdb.ATOM, pdb.HETATM))]
+    if not coord:
+        return
+    try:
+        new = pmain.drop_water(list(pdblist))
+    except Exception as e:  # noqa: BLE001
+        ctx.fail({"site": "main.drop_water", "condition": "raises", "exception": type(e).__name__}, f"drop_water raises {type(e).__name__}: {e}", {"text": case["text"], "dropw": True, "mode": "oracle"})
+        return
+    want = [o for o in coord if o.res_name not in WATER_NAMES]
+    have = [o for o in new if isinstance(o, (pdb.ATOM, pdb.HETATM))]
+    ctx.evaluated(("drop_water-level", tuple(case["feats"]), len(coord) - len(want)), len(want) < len(coord))
+    if len(want) != len(have) or any(a is not b for a, b in zip(want, have)):
+        lost = [o.serial for o in want if all(o is not h for h in have)]
+        ctx.fail(
+            {"site": "main.drop_water", "condition": "non-water-record-dropped" if lost else "water-or-other-record-kept"},
+            f"drop_water keeps {len(have)} coordinate records, the non-water ones are {len(want)}; lost serials {lost[:10]}",
+            {"text": case["text"], "dropw": True, "mode": "oracle"},
+        )
+
+
+def main_driver_runs(ctx, rng):
+    """The real entry (main.main_driver) on built peptides with solvent whose serial
+    numbers collide with the peptide's, with and without --drop-water."""
+    try:
+        from harness import builder
+        import numpy as np
+    except Exception as e:  # noqa: BLE001
+        ctx.count("main_driver:builder-unavailable:" + type(e).__name__)
+        return
+    d = ctx.scratch_dir()
+    nrng = np.random.default_rng(rng.randrange(1 << 30))
+    for j, (seq, scheme) in enumerate([(["ALA", "GLY", "SER"], "restart"), (["GLY", "ALA"], "constant"), (["SER", "ALA", "GLY"], "unique")]):
+        pep = builder.build_peptide(seq, chain="A", start=1)
+        wat = builder.waters(4, around=pep, chain="A", start=101, rng=nrng, resname=rng.choice(["HOH", "WAT"]))
+        text = builder.to_pdb(list(pep) + list(wat), hetatm_for=("HOH", "WAT"))
+        lines = text.split("\n")
+        n1 = n2 = 0
+        for i, l in enumerate(lines):
+            if l[:6].strip() in ("ATOM", "HETATM"):
+                w = l[17:20].strip() in WATER_NAMES
+                if scheme == "restart":
+                    n1, n2 = (n1, n2 + 1) if w else (n1 + 1, n2)
+                    lines[i] = l[:6] + f"{(n2 if w else n1):>5}" + l[11:]
+                elif scheme == "constant":
+                    lines[i] = l[:6] + f"{1:>5}" + l[11:]
+        text = "\n".join(lines)
+        heavy = sorted((l[17:20].strip(), int(l[22:26]), l[12:16].strip()) for l in lines if l[:6].strip() == "ATOM" and not l[12:16].strip().startswith("H"))
+        for flag in (True, False):
+            r = builder.run_pdb2pqr(text, ["--ff=AMBER"] + (["--drop-water"] if flag else []), workdir=d / f"md{j}{int(flag)}")
+            ctx.evaluated(("main_driver", scheme, flag), True)
+            ctx.count("main_driver:" + scheme + (":drop-water" if flag else ""))
+            case = {"text": text, "dropw": flag, "mode": "main_driver", "args": ["--ff=AMBER"] + (["--drop-water"] if flag else [])}
+            if r["exc"] is not None or not r["pqr_text"]:
+                ctx.fail({"site": "main.main_driver", "condition": "run-fails", "drop_water": flag, "exception": type(r["exc"]).__name__}, f"main_driver fails on a built peptide with solvent ({scheme} serials): {r['exc']}", case)
+                continue
+            out = builder.parse_pqr(r["pqr_text"])
+            names = {(a["resname"][-3:], int(re.sub(r"[^0-9-]", "", str(a["resseq"])) or 0), a["name"]) for a in out} if out and "resname" in out[0] else None
+            if names is None:
+                keys = list(out[0].keys()) if out else []
+                ctx.count("main_driver:unexpected-parse_pqr-keys:" + ",".join(keys)[:60])
+                continue
+            bm = r["result"][2] if r["result"] else None
+            lost = [h for h in heavy if (h[0], h[1], h[2]) not in names and not any(n[1] == h[1] and n[2] == h[2] for n in names)]
+            waters_out = [n for n in names if n[0] in ("HOH", "WAT")]
+            if lost:
+                ctx.fail({"site": "main.main_driver", "condition": "input-heavy-atom-missing-from-output", "drop_water": flag}, f"heavy atoms of the input peptide missing from the PQR ({scheme} serials): {lost[:6]}", case)
+            elif flag and waters_out:
+                ctx.fail({"site": "main.main_driver", "condition": "water-in-output-with-drop-water"}, f"waters in the PQR although --drop-water: {waters_out[:4]}", case)
+            elif not flag and not waters_out:
+                ctx.fail({"site": "main.main_driver", "condition": "water-missing-without-drop-water"}, "no water in the PQR without --drop-water", case)
+            elif bm is not None and flag:
+                # rebuilt atoms hide a dropped record in the PQR: the input coordinates must survive too
+                have = {(a.res_seq, a.name): (round(a.x, 3), round(a.y, 3), round(a.z, 3)) for a in bm.atoms}
+                moved = [l[12:16].strip() + str(int(l[22:26])) for l in lines if l[:6].strip() == "ATOM" and not l[12:16].strip().startswith("H") and l[12:16].strip() not in ("OXT",) and have.get((int(l[22:26]), l[12:16].strip())) != (round(float(l[30:38]), 3), round(float(l[38:46]), 3), round(float(l[46:54]), 3))]
+                if moved:
+                    ctx.fail({"site": "main.main_driver", "condition": "input-heavy-atom-rebuilt-under-drop-water"}, f"heavy atoms of the input do not keep their coordinates under --drop-water ({scheme} serials): {moved[:6]}", case)
+
+
 UNIV = re.compile(r"\r\n|\r|\n")
 BOM = b"\xef\xbb\xbf"
 FILE_STYLES = ["LF", "CRLF", "CR", "mixed", "CR-no-final-eol", "BOM"]
@@ -1462,9 +1625,13 @@ def run(ctx):
     for c in search:
         if oracle_case(ctx, c, tab):
             indom += 1
+        if c["dropw"] or "serial-scheme" in " ".join(c["feats"]):
+            oracle_case(ctx, c, tab, dropw=True)
+            drop_water_level(ctx, c)
         if c["stream"] != "malformed":
             metamorphic(ctx, c, ctx.rng)
     ctx.count("oracle:in-domain", indom)
+    main_driver_runs(ctx, ctx.rng)
     # the file layer: bytes on disk, every terminator style, through io.get_molecule
     fl_cases = cases[:ncorpus] + [c for c in cases if c["stream"] == "structured"][: (200 if ctx.thorough else 40)] + [c for c in cases if c["stream"] == "malformed"][: (60 if ctx.thorough else 12)]
     if not file_layer(ctx, fl_cases, tab, header, ctx.rng):
@@ -1536,7 +1703,7 @@ def replay(ctx, data):
         for s in range(8):
             metamorphic(ctx, c, random.Random(s))
     else:
-        oracle_case(ctx, c, tab)
+        oracle_case(ctx, c, tab, dropw=bool(case.get("dropw", False)))
     after = len(ctx.failures) + sum(ctx.known_hits.values())
     print("replay:", "FAILS" if after > before else "passes", "|", (ctx.failures[-1]["what"][:300] if ctx.failures else ""))
     return 1 if after > before else 0
